@@ -77,14 +77,11 @@ func refValue(fd pref.FieldDescriptor, x, y pref.Value, t tol) bool {
 				}
 				a := mx.Interface().(*timestamppb.Timestamp)
 				b := my.Interface().(*timestamppb.Timestamp)
-				// exact integer arithmetic on (seconds, nanos)
-				ds := a.Seconds - b.Seconds
-				dn := int64(a.Nanos) - int64(b.Nanos)
-				total := ds*1e9 + dn
-				if total < 0 {
-					total = -total
-				}
-				return total <= int64(t.timeD)
+				// exact integer arithmetic on (seconds, nanos); big: year 1 to year 9999 does not fit 64 bits of ns
+				total := new(big.Int).Mul(big.NewInt(a.Seconds-b.Seconds), big.NewInt(1e9))
+				total.Add(total, big.NewInt(int64(a.Nanos)-int64(b.Nanos)))
+				total.Abs(total)
+				return total.Cmp(big.NewInt(int64(t.timeD))) <= 0
 			}
 		case "google.protobuf.Duration":
 			if t.dur {
@@ -319,6 +316,9 @@ func muts() []mut {
 		{"ts=t0+1s", tm(func(t *T) { wk(t).DefaultTimestamp = &timestamppb.Timestamp{Seconds: t0 + 1} })},
 		{"ts=t0-1s", tm(func(t *T) { wk(t).DefaultTimestamp = &timestamppb.Timestamp{Seconds: t0 - 1} })},
 		{"ts=t0+1s+1ns", tm(func(t *T) { wk(t).DefaultTimestamp = &timestamppb.Timestamp{Seconds: t0 + 1, Nanos: 1} })},
+		// the ends of the Timestamp range: further apart than a time.Duration can say ("never" vs now)
+		{"ts=year1", tm(func(t *T) { wk(t).DefaultTimestamp = &timestamppb.Timestamp{Seconds: -62135596800} })},
+		{"ts=year9999", tm(func(t *T) { wk(t).DefaultTimestamp = &timestamppb.Timestamp{Seconds: 253402300799} })},
 		{"dur=nil", tm(func(t *T) { wk(t).DefaultDuration = nil })},
 		{"dur=10s", tm(func(t *T) { wk(t).DefaultDuration = &durationpb.Duration{Seconds: 10} })},
 		{"dur=10s+1ns", tm(func(t *T) { wk(t).DefaultDuration = &durationpb.Duration{Seconds: 10, Nanos: 1} })},
